@@ -20,3 +20,11 @@ Definition ToRune := to_rune.
 
 Require Import GM.model.Ids.
 Definition IdsGenerate := generate utf8len_table space_table spaces.
+
+Require Import GM.model.HtmlWriter.
+Definition WriterWrite := writer_write html_escape_table punct_table entities.
+Definition RawWrite := raw_write html_escape_table.
+Definition SecureWrite := secure_write.
+Definition RenderAttributes := render_attributes html_escape_table.
+Definition IsDangerousURL := is_dangerous_url.
+Definition UrlValue := url_value html_escape_table punct_table entities url_escape_table utf8len_table.
